@@ -34,13 +34,13 @@ RULE = ("lim: every (parser machine, valid sentence w, limit form, k in 0..len(w
         "construction (enumerated once).")
 BOUNDS = {
     "quick": "102 machine specs (every state class of parser.py, typed_data per type, CIP per command, the 19+6 registered "
-             "service machines, Object/Connection_Manager parsers) with 180 sentences; k 0..len(w)+2; 6 limit forms (ctor int / "
+             "service machines, Object/Connection_Manager parsers) with 214 sentences; k 0..len(w)+2; 6 limit forms (ctor int / "
              "data path with parsed length prefix / callable at offset 2 / enclosing dfa / enclosing smaller / enclosing "
              "larger), 4 for registered service machines; tail {none, 3 sentinels}; chunkings {whole peekable (tail none), "
              "whole chainable, byte-wise, 2-way split at the limit}; 52 embedded-length templates, field 0..natural+2; "
              "repeat n 0..4 x j 1..3 x {int, data path, parsed prefix} x supplied n*j-2..n*j+3; iterator op sequences of "
              "depth <=6 (chaining) / <=8 (peeking)",
-    "thorough": "as quick plus every 2-way split of every input, 34 extra sentences (214), and a third tail (a second "
+    "thorough": "as quick plus every 2-way split of every input and a third tail (a second "
                 "copy of the sentence follows; quick chunkings only); iterator op sequences of depth <=7 / <=9",
 }
 ASSUMPTIONS = [
@@ -231,7 +231,7 @@ class Spec(object):
         self.seed = seed            # f(parent_path, w) -> {key: value}
 
     def sents(self, tier):
-        return self.sentences + (self.extra if tier == "thorough" else [])
+        return self.sentences + self.extra
 
 
 def _join(a, b):
